@@ -49,6 +49,11 @@ KINDS = {
     "hrdyn": ("&(dyn for<'x> Fn(&'x u64) -> u64 + Send + Sync)", 1),
     "fnptr": ("fn(u64) -> u64", 1),
     "selfref": ("&Self", 1),
+    "paren": ("(u64)", 1),
+    "qual": ("::core::primitive::u64", 1),
+    "qself": ("<u64 as ::core::ops::Add>::Output", 1),
+    "refstatic": ("&'static u64", 1),
+    "dynauto": ("&(dyn Fn(u64) -> u64 + Send + Sync + ::core::panic::RefUnwindSafe)", 1),
     # exactly `impl Into<X>`, one bound: the conversion is the FUNCTION's business (it allocates,
     # declared, and constructs a Tracked); `intonever`: the function never converts at all
     "intosole": ("impl Into<Tracked>", 1),
@@ -113,8 +118,12 @@ class Param:
             if self.kind == "refpair":
                 return [f"{n}a", f"{n}b"]
         k = self.kind
-        if k == "u64":
+        if k in ("u64", "paren", "qual", "qself"):
             return [n]
+        if k == "refstatic":
+            return [f"*{n}"]
+        if k == "dynauto":
+            return [f"{n}(7)"]
         if k == "u32":
             return [f"{n} as u64"]
         if k in ("ref", "refa"):
@@ -180,8 +189,12 @@ class Param:
     def call(self, k):
         """(prelude, expr, expected fps, values consumed)"""
         kd = self.kind
-        if kd in ("u64", "gen", "genm"):
+        if kd in ("u64", "gen", "genm", "paren", "qual", "qself"):
             return ("", f"v[{k}]", [f"v[{k}]"], 1)
+        if kd == "refstatic":
+            return ("", f"sim::leak_static(v[{k}])", [f"v[{k}]"], 1)
+        if kd == "dynauto":
+            return (f"let da{k} = v[{k}]; let dc{k} = move |x: u64| x ^ da{k};", f"&dc{k}", [f"7 ^ v[{k}]"], 1)
         if kd == "u32":
             return ("", f"v[{k}] as u32", [f"v[{k}]"], 1)
         if kd in ("ref", "refa"):
@@ -675,6 +688,12 @@ single(Fn("r_u32", ("impl", ["F0"]), ["u64"], ret="u32r", calls=["f0"]))
 single(Fn("r_i32", ("any", []), [], ret="i32r"))
 single(Fn("r_usize", ("impl", ["F0"]), [], ret="usizer"))
 single(Fn("ar_u8", ("impl", ["Af0"]), ["u64"], ret="u8r", is_async=True))
+# doc comments and lint / doc attributes below `#[entrait]`
+single(Fn("doc_fn", ("impl", ["F0"]), ["u64", "u64"], below="/// A documented function.\n/// Second line of documentation.", calls=["f0"], props=("C01", "C14")))
+single(Fn("adoc_fn", ("impl", ["Af0"]), ["u64", "u64"], is_async=True, below="/** block doc */\n#[doc(hidden)]\n#[allow(unused_variables, clippy::all)]", props=("C01", "C14")))
+single(Fn("doc_nd", ("nodeps", []), ["u64", "u64"], opts="no_deps", below="#[doc = \"attribute doc\"]\n#[deny(unsafe_code)]", props=("C01", "C14")))
+module("docmod", "Docmod", [Fn("docm_a", ("impl", ["F0"]), ["u64", "u64"], below="/// first"), Fn("docm_b", ("impl", ["F0"]), ["u64", "u64"], below="/// second\n    #[allow(dead_code)]"),
+                            Fn("adocm_c", ("impl", ["Af0"]), ["u64", "u64"], is_async=True, below="#[doc(alias = \"c\")]")], props=("C01", "C14"))
 # sole-bound `impl Into<X>` parameters: converted by the function, or never
 single(Fn("into_conv", ("impl", ["F0"]), ["intosole", "u64"], props=("C01", "C14")))
 single(Fn("into_never", ("impl", ["F0"]), ["u64", "intonever"], props=("C01", "C14")))
@@ -1401,6 +1420,13 @@ _ds = [Fn("dsg1", SELF, ["u64", "u64"], is_async=True), Fn("dsg_unit", SELF, ["u
 for _m in _ds[:3]:
     _m.desugared_provider = True
 trait_section("PlainDesugared", "self", _ds)
+trait_section("PlainDoc", "self", [
+    Fn("pdoc1", SELF, ["u64", "u64"], attrs="/// documented method"),
+    Fn("pdoc2", SELF, ["u64", "u64"], attrs="#[doc(hidden)]\n    #[allow(unused_variables)]"),
+    Fn("apdoc3", SELF, ["u64", "u64"], is_async=True, attrs="/** block */\n    #[must_use]"),
+    Fn("pdoc_inline", SELF, ["u64", "u64"], attrs="#[allow(clippy::too_many_arguments)]"),
+])
+trait_section("ByRefDoc", "ref", [Fn("rdoc1", SELF, ["u64", "u64"], attrs="/// documented"), Fn("rdoc2", SELF, ["u64", "u64"], attrs="#[doc(hidden)]")], supers=": 'static")
 trait_section("PlainInto", "self", [Fn("pinto_never", SELF, ["u64", "intonever"]), Fn("pinto_conv", SELF, ["intosole", "u64"])])
 trait_section("PlainSame", "self", [Fn("psame", SELF, ["u64", "same:u64"]), Fn("psame3", SELF, ["u64", "u64", "same:u64"]),
                                     Fn("psame_first", SELF, ["same:u64", "u64"]), Fn("psame_mid", SELF, ["u64", "same:u64", "u64"]),
